@@ -1,12 +1,13 @@
 ---- MODULE MC_TxExec ----
 (* Exhaustive configuration: every block history of <= MaxOps calls over the catalogue. *)
 EXTENDS TxCatalog
-CONSTANTS MCFrom, MCBals, MCValues, MCExtras, MCCBals
+CONSTANTS MCFrom, MCBals, MCValues, MCExtras, MCCBals,
+          MCShift   \* step limit = base cost + extra - MCShift (cfg files cannot hold negative numbers)
 \* the history does not influence behaviour
 ViewNoHist == <<w, price, fees, ntx, total, viol, Len(hist)>>
 MCInit == {[Zero EXCEPT !.bal = [a \in Accts |-> IF a \in MCFrom THEN ub[a]
                                                  ELSE IF a \in Contracts THEN cb ELSE 0]]
              : ub \in [MCFrom -> MCBals], cb \in MCCBals}
-MCTxSpace(ww) == {t \in {Mk(f, sh, v, Base(sh) + e) : f \in MCFrom, sh \in Shapes, v \in MCValues, e \in MCExtras} :
+MCTxSpace(ww) == {t \in {Mk(f, sh, v, Base(sh) + e - MCShift) : f \in MCFrom, sh \in Shapes, v \in MCValues, e \in MCExtras} :
                     t.to \in NoValue => t.value = 0}
 ====
